@@ -90,6 +90,14 @@ func run(c Case, k *ev.Case) *ev.Failure {
 	}
 	env.SetHangLimit(8 * time.Second)
 	env.Run(c.Prefix)
+	// back-pressure starts BEFORE the pending calls are issued, so that their writes are in flight (blocked below the disconnect
+	// gate) when the close plan runs, not merely their responses outstanding
+	stallLink := (*sim.Link)(nil)
+	if c.Stall && c.CutMsgs < 0 {
+		if stallLink = w.CurrentLink(); stallLink != nil {
+			stallLink.StallWrites()
+		}
+	}
 	// pending calls
 	var pwg sync.WaitGroup
 	pend := make([]*scn.Rec, len(c.Pending))
@@ -114,9 +122,8 @@ func run(c Case, k *ev.Case) *ev.Failure {
 		}
 	}
 	nPrefix := len(env.Records())
-	if c.Stall && !cut {
-		if l := w.CurrentLink(); l != nil {
-			l.StallWrites()
+	if c.Stall && !cut && stallLink != nil {
+		if l := stallLink; l != nil {
 			inc := w.Broker.CurrentInc()
 			var fwg sync.WaitGroup
 			fwg.Add(1)
@@ -503,6 +510,12 @@ func TestRegress(t *testing.T) {
 	for _, cut := range []int{0, 1, 2, 3} {
 		sub.One(t, Case{Cfg: cfg, Prefix: pre, CutMsgs: cut, Plan: scn.Program{{{Kind: "conn-close"}}}, Redial: "paced", Pending: []scn.Op{{Kind: "flush", Obj: "u0", CtxMs: 1500}}})
 		sub.One(t, Case{Cfg: cfg, Prefix: pre, CutMsgs: cut, Plan: scn.Program{nil}, Redial: "paced"})
+	}
+	// seeded change C10/m3 (a write that passed the disconnect gate completes after the Disconnect): writes of every kind are in
+	// flight, blocked by back-pressure, when Close runs; whatever order they leave in, nothing may follow the Disconnect
+	for i := 0; i < 6; i++ {
+		sub.One(t, Case{Cfg: cfg, Prefix: pre, CutMsgs: -1, Plan: scn.Program{{{Kind: "conn-close"}}}, Redial: "paced", Stall: true, FloodCalls: 0, StallMs: 10 + 10*(i%3),
+			Pending: []scn.Op{{Kind: "call", CtxMs: 1500}, {Kind: "meta", CtxMs: 1500}, {Kind: "flush", Obj: "u0", CtxMs: 1500}}})
 	}
 	// seeded change C10/m1: the peer stops reading, Close blocks on its Disconnect, calls keep arriving
 	sub.One(t, Case{Cfg: cfg, Prefix: pre, CutMsgs: -1, Plan: scn.Program{{{Kind: "conn-close"}}}, Redial: "paced", Stall: true, FloodCalls: 40, StallMs: 30})
